@@ -322,7 +322,7 @@ func storeLeg(c *harness.Ctx, rng *rand.Rand, idx desync.Index, raw []byte, sha2
 		u, _ := url.Parse("sftp://localhost" + dir)
 		s, e := desync.NewSFTPIndexStore(u, opt)
 		if e != nil {
-			c.Inconclusive("sftp shim: %v", e)
+			c.Skip("sftp shim: %v", e)
 			return
 		}
 		defer s.Close()
@@ -488,7 +488,7 @@ func concurrentLeg(c *harness.Ctx, rng *rand.Rand, sha256 bool) {
 		fmt.Fprintf(conn, "GET /i0.caibx HTTP/1.1\r\nHost: x\r\nConnection: close\r\n\r\n")
 		br := bufio.NewReaderSize(conn, 4096)
 		if _, err := br.Peek(1); err != nil { // the server has started to send
-			c.Inconclusive("slow reader: %v", err)
+			c.Skip("slow reader: %v", err)
 			return
 		}
 		fetchAll(3)
